@@ -335,7 +335,7 @@ func c06PopRun(a c06Pop) (string, string, string) {
 func TestC06(t *testing.T) {
 	r := rec.New("C06")
 	defer r.Flush()
-	r.Rule("value v (anchors 0, 2^16, 2^32, 2^48, 2^63, 2^64-2^32, p, 2^64, 2^n-1.., r with offsets -2..2; random of every bit length; random inside the range) x gadget {RangeCheck, RangeCheckWithMaxBits(n), n in 1..64,96,128,144,192} x configuration {engine: native / plain / commit(padded to 70k checks), each also with USE_BIT_DECOMPOSITION_RANGE_CHECK; compiled R1CS and SCS built for native-range-checker wrapper / commit / forced bits; gnark test engine}; out-of-range values are also tried with dishonest limb hints and a dishonest bit-decomposition hint; 'populations': one w-bit check (w in 16,32,48,64) plus 0..72000 padding checks compiled for R1CS and SCS under the commit checker - circuits the chip refuses are counted, circuits that compile must be exact at 2^w-1, 2^(w+j), 2^(w+j)+1.  Oracle: accepted <=> v < p (resp. v < 2^n); commit-mode widths not multiple of 16 may be refused.  Non-trivial = value within 2 of a range/field boundary or a dishonest hint; distinct = (v, n, configuration, hint).")
+	r.Rule("value v (anchors 0, 2^16, 2^32, 2^48, 2^63, 2^64-2^32, p, 2^64, 2^n-1.., r with offsets -2..2; random of every bit length; random inside the range) x gadget {RangeCheck, RangeCheckWithMaxBits(n), n in 1..64,96,128,144,192} x configuration {engine: native / plain / commit(padded to 70k checks), each also with USE_BIT_DECOMPOSITION_RANGE_CHECK; compiled R1CS and SCS built for native-range-checker wrapper / commit / forced bits; gnark test engine}; out-of-range values are also tried with dishonest limb hints and a dishonest bit-decomposition hint; 'populations': one w-bit check (w in 16,32,48,64) plus 0..72000 padding checks compiled for R1CS and SCS under the commit checker - circuits the chip refuses are counted, circuits that compile must be exact at 2^w-1, 2^(w+j), 2^(w+j)+1; sizes are rapid-drawn and additionally swept with one size per geometric bucket of ratio 1.15 (thorough 1.04) per builder and padding kind.  Oracle: accepted <=> v < p (resp. v < 2^n); commit-mode widths not multiple of 16 may be refused.  Non-trivial = value within 2 of a range/field boundary or a dishonest hint; distinct = (v, n, configuration, hint).")
 	r.Assume("gnark v0.9.1 builders/solver and std/rangecheck as shipped", "the native-range-checker builder wrapper implements Check by bit decomposition inside the wrapped builder")
 
 	var rp c06Replay
@@ -538,6 +538,59 @@ func TestC06(t *testing.T) {
 			}
 		}
 	})
+	// B3. stratified sweep over the circuit size: one size in every geometric bucket [g^i, g^(i+1))
+	// (position inside the bucket derived from VERIF_SEED) x builder x padding kind, so that every
+	// window of sizes wider than the bucket ratio - e.g. where the R1CS and the PLONK cost model of the
+	// limb-width optimiser disagree - is hit in every run.
+	ratio := 1.15
+	if rec.Thorough() {
+		ratio = 1.04
+	}
+	item := 0
+	for lo := 1.0; lo < 72000; lo *= ratio {
+		hi := lo * ratio
+		if int(hi) <= int(lo) {
+			continue
+		}
+		for _, backend := range []string{"r1cs", "scs"} {
+			for _, full := range []bool{false, true} {
+				item++
+				if !rec.Mine(item) {
+					continue
+				}
+				h := rec.Hash(fmt.Sprint(rec.Seed(), "popsweep", item))
+				a := c06Pop{Backend: backend, PadFull: full, Width: []uint64{16, 32, 48, 64}[h%4]}
+				a.PadN = int(lo) + int((h>>8)%uint64(int(hi)-int(lo)))
+				if full {
+					a.PadN /= 2 // a Goldilocks RangeCheck collects two 32-bit checks
+				}
+				for _, sh := range []uint{0, uint(1 + (h>>40)%9)} {
+					stop := false
+					for _, v := range []*big.Int{new(big.Int).Sub(pow2(uint(a.Width)), big.NewInt(1)), pow2(uint(a.Width) + sh), new(big.Int).Add(pow2(uint(a.Width)+sh), big.NewInt(1))} {
+						a.V = v.String()
+						k, d, st := c06PopRun(a)
+						if st == "refused" {
+							popRefused++
+							stop = true
+						} else {
+							popCompiled++
+						}
+						r.Case("population-sweep/"+a.Backend+"/"+st, st != "refused", fmt.Sprint(a), func() any { return a })
+						if k != "" {
+							cfg, _ := json.Marshal(a)
+							r.Fail(t, "C06/"+k, c06Replay{Backend: "population", Config: string(cfg), Width: a.Width, V: a.V}, "%s", d)
+						}
+						if stop {
+							break
+						}
+					}
+					if stop {
+						break
+					}
+				}
+			}
+		}
+	}
 	r.AddExtra("population_cases_refused_at_compile", popRefused)
 	r.AddExtra("population_cases_compiled", popCompiled)
 
